@@ -36,6 +36,13 @@ B. The starting point.  Every top-level statement of BADS.__init__ that stores s
    of Model/FilterSrc.v `start_ev` (shapes in `_init_event` / `_state_event`); they are emitted IN SOURCE ORDER as
    `src_init_events` / `src_state_events`.  A call of the target in __init__ raises.
 
+C. Call sites and census.  Every module of the package outside pybads/testing is scanned: `contraints_check` may be defined only in
+   constraints_check.py, imported only from pybads.function_logger[.constraints_check], never assigned / patched; every CALL is emitted
+   as a `call_site` (file, enclosing function, the name the result is bound to, the argument texts, the last statement before the
+   call that writes the candidate variable - the snap to the grid -, the statements after the call in the same block that write
+   the result again: a sibling assignment in full, a store nested in a later compound statement as a mark), in file / source order, as `src_filter_calls`.  A call that is not `<name> = contraints_check(<same
+   name>, <6 more positional arguments>)` raises.
+
 `translate/filter_reference.json` holds the text generated from the source the proofs were written against; it is used ONLY to
 say which definition differs (to aim the search), never to decide anything.
 """
@@ -784,6 +791,113 @@ def load_start():
     return init_events(find_method(cls[0], "__init__")), state_events(find_method(cls[0], "_init_optim_state_"))
 
 
+# =========================================================================== C. call sites, census
+
+
+def _text(node, limit=230):
+    import hashlib
+    t = " ".join(ast.unparse(node).split()).replace('"', "'")
+    if len(t) > limit:
+        t = t[:limit] + " ...#" + hashlib.sha1(dump(node).encode()).hexdigest()[:10]
+    return t
+
+
+def _stores(st, name):
+    return any(isinstance(n, ast.Name) and isinstance(n.ctx, ast.Store) and n.id == name for n in ast.walk(st)) or \
+        any(isinstance(n, ast.Subscript) and isinstance(n.ctx, ast.Store) and isinstance(n.value, ast.Name) and n.value.id == name for n in ast.walk(st))
+
+
+def call_sites():
+    pkg = core.REPO / "pybads"
+    sites = []
+    for path in sorted(pkg.rglob("*.py")):
+        rel = str(path.relative_to(core.REPO))
+        if rel.startswith("pybads/testing") or "__pycache__" in rel:
+            continue
+        text = path.read_text()
+        if FUNC not in text:
+            continue
+        mod = parse_quiet(text)
+        for n in ast.walk(mod):
+            if isinstance(n, (ast.FunctionDef, ast.AsyncFunctionDef, ast.ClassDef)) and n.name == FUNC and rel != REL_CC:
+                bad(f"{rel}: a second definition of {FUNC}")
+            if isinstance(n, (ast.Name, ast.Attribute)) and isinstance(getattr(n, "ctx", None), (ast.Store, ast.Del)) and \
+                    (getattr(n, "id", None) == FUNC or getattr(n, "attr", None) == FUNC):
+                bad(f"{rel}: {FUNC} is assigned / patched", n)
+            if isinstance(n, ast.arg) and n.arg == FUNC:
+                bad(f"{rel}: a parameter shadows {FUNC}")
+            if isinstance(n, ast.Constant) and isinstance(n.value, str) and n.value == FUNC:
+                bad(f"{rel}: the name {FUNC} as a string (getattr / setattr / patching?)")
+            if isinstance(n, ast.ImportFrom):
+                for a in n.names:
+                    if a.name == FUNC or a.asname == FUNC:
+                        src = ("." * n.level) + (n.module or "")
+                        if a.asname not in (None, FUNC) or src not in ("pybads.function_logger", "pybads.function_logger.constraints_check", ".constraints_check"):
+                            bad(f"{rel}: {FUNC} imported from `{src}` / under another name", n)
+            if isinstance(n, ast.Import):
+                for a in n.names:
+                    if (a.asname or a.name) == FUNC:
+                        bad(f"{rel}: a module imported under the name {FUNC}", n)
+        # calls, with their enclosing function and block
+
+        def walk_block(stmts, qual):
+            for i, st in enumerate(stmts):
+                if isinstance(st, (ast.FunctionDef, ast.AsyncFunctionDef, ast.ClassDef)):
+                    walk_block(st.body, (qual + "." if qual else "") + st.name)
+                    continue
+                calls_here = [c for c in ast.walk(st) if isinstance(c, ast.Call) and (dotted(c.func) or "").split(".")[-1] == FUNC]
+                direct = isinstance(st, ast.Assign) and isinstance(st.value, ast.Call) and st.value in calls_here
+                if direct:
+                    c = st.value
+                    if len(calls_here) != 1 or not isinstance(c.func, ast.Name) or c.keywords or len(c.args) != 7 or len(st.targets) != 1 or \
+                            not isinstance(st.targets[0], ast.Name) or not isinstance(c.args[0], ast.Name) or c.args[0].id != st.targets[0].id:
+                        bad(f"{rel}: a call of {FUNC} that is not `<name> = {FUNC}(<same name>, <6 more positional arguments>)`", st)
+                    v = st.targets[0].id
+                    before = "(none in this block)"
+                    for prev in reversed(stmts[:i]):
+                        if _stores(prev, v):
+                            before = _text(prev)
+                            break
+                    # the plain store statements (at any depth) after the call, in this block, that write the variable again
+                    # (a sibling statement in full; a store nested in a later compound statement - the next round of a loop - only as a mark)
+                    after = []
+                    for x in stmts[i + 1:]:
+                        if isinstance(x, (ast.Assign, ast.AugAssign, ast.AnnAssign)):
+                            if _stores(x, v):
+                                after.append(_text(x))
+                        elif _stores(x, v):
+                            after.append(f"nested in a later `{type(x).__name__.lower()}`: {v} = ...")
+                    sites.append(dict(file=rel, fun=qual, target=v, args=[_text(a, 120) for a in c.args[1:]], before=before, after=after))
+                    continue
+                for blk in ("body", "orelse", "finalbody"):
+                    if isinstance(getattr(st, blk, None), list) and getattr(st, blk) and isinstance(getattr(st, blk)[0], ast.stmt):
+                        walk_block(getattr(st, blk), qual)
+                for h in getattr(st, "handlers", []) or []:
+                    walk_block(h.body, qual)
+                nested = sum(1 for blk in ("body", "orelse", "finalbody") for x in (getattr(st, blk, None) or []) if isinstance(x, ast.stmt)
+                             for c in ast.walk(x) if isinstance(c, ast.Call) and (dotted(c.func) or "").split(".")[-1] == FUNC)
+                nested += sum(1 for h in (getattr(st, "handlers", []) or []) for x in h.body for c in ast.walk(x)
+                              if isinstance(c, ast.Call) and (dotted(c.func) or "").split(".")[-1] == FUNC)
+                if len(calls_here) != nested:
+                    bad(f"{rel}: {FUNC} is called inside an expression / a statement that is not a plain assignment", st)
+        if rel != REL_CC:
+            walk_block(mod.body, "")
+    if not sites:
+        bad(f"no call of {FUNC} found in the package")
+    return sites
+
+
+def render_calls(sites):
+    def cs(x):
+        return '"' + x + '"'
+
+    def cl(xs):
+        return "[" + "; ".join(cs(x) for x in xs) + "]"
+    items = [f"  {{| cs_file := {cs(s_['file'])}; cs_fun := {cs(s_['fun'])}; cs_target := {cs(s_['target'])};\n     cs_args := {cl(s_['args'])};\n"
+             f"     cs_last_write_before := {cs(s_['before'])};\n     cs_writes_after := {cl(s_['after'])} |}}" for s_ in sites]
+    return "Definition src_filter_calls : list call_site :=\n  [\n" + ";\n".join(items) + "\n  ]%string.\n"
+
+
 # =========================================================================== output
 
 
@@ -791,6 +905,7 @@ def generate():
     tr, stages = load_filter()
     parts, _ = render_filter(tr, stages)
     ie, se = load_start()
+    sites = call_sites()
     head = (MARK + " from " + REL_CC + " and " + REL_BADS + " on every ./check run - do not edit, never committed.\n"
             "   Meaning of every primitive: Model/FilterSrc.v.  Skipped (pinned shapes): " + ("; ".join(tr.skipped) or "nothing") + " *)\n"
             "From Coq Require Import ZArith QArith List Bool String.\nFrom PV Require Import Model.Filter Model.FilterSrc.\n"
@@ -802,7 +917,8 @@ def generate():
     defs["src_stage_writes"] = parts[-1]
     defs["src_init_events"] = "; ".join(ie)
     defs["src_state_events"] = "; ".join(se)
-    return head + "\n".join(parts) + "\n" + ev, defs
+    defs["src_filter_calls"] = render_calls(sites)
+    return head + "\n".join(parts) + "\n" + ev + "\n" + defs["src_filter_calls"], defs
 
 
 def emit():
